@@ -52,7 +52,7 @@ def run(tier, seed):
                     sig = "replay:auth-outcomes:nondeterministic-unexplained"
             else:
                 sig = "replay:auth-outcomes:nondeterministic-unexplained"
-            ctx.finding(sig, "observed %s over %d builds" % (sorted(r["detail"])[:2], n), {"kind": "auth-outcomes", "case": case, "row": r})
+            ctx.finding(sig, "observed %s (iteration counts %s) over %d builds" % (sorted(r["detail"])[:2], r.get("iterations"), n), {"kind": "auth-outcomes", "case": case, "row": r})
         else:
             stats["deterministic"] += 1
         if len(r["allowed"]) > 1:
@@ -63,6 +63,36 @@ def run(tier, seed):
     ctx.cov["replayed"]["guards"] = dict(stats)
     ctx.cov["design_counterexample_found"] = design_cex
     ctx.sample({"program": cases[0]["prog"], "spec_outcomes": cases[0]["outcomes"], "observed": rows[0]["observed"]})
+    # the number of passes is a function of the program: derivation chains across trust groups under tight iteration budgets
+    c3 = ac.consts(Universe='"passes"', MaxBlocks=3, Exts="<- ExtsOne", ScopeMenu="<- Scopes3", ExportOn=True)
+    cfg = vlib.write_cfg(os.path.join(ctx.work, "passes.cfg"), c3, ["PassesDecide", "ExportPasses"])
+    res = ctx.tlc("AuthMC", cfg, name="passes", tags=("OUTC",), seed=seed)
+    if res.violated:
+        raise vlib.ToolError("AuthMC invariant %s violated in universe passes" % res.violated)
+    path3 = res.exports["OUTC"]
+    out3 = path3 + ".verdict"
+    p = vlib.vh("auth-outcomes", path3, out3, str(n))
+    vlib.log("[C11] passes: " + p.stdout.strip())
+    rows3 = vlib.read_ndjson(out3)
+    cases3 = vlib.read_ndjson(path3)
+    st3 = collections.Counter()
+    for r in rows3:
+        case = cases3[r["idx"]]
+        if not r["ok"]:
+            kind = "passes:outside-spec" if any("OUTSIDE-SPEC" in x for x in r["problems"]) else "passes:" + ac.classify(r["problems"][0])
+            ctx.finding("replay:auth-outcomes:" + kind, "max_iterations %s, spec passes %s: %s" % (case["max_iter"], case["passes"], "; ".join(r["problems"][:2])[:300]),
+                        {"kind": "auth-outcomes", "case": case, "row": r})
+            st3["disagree"] += 1
+        # determinism: the iteration count of a successful run, and success itself, never vary between builds
+        if len(r["iterations"]) > 1 or len(r["observed"]) > 1 or len(r["detail"]) > 1:
+            ctx.finding("replay:auth-outcomes:passes:nondeterministic", "max_iterations %s (spec passes %s): observed %s, iteration counts %s over %d builds" % (case["max_iter"], case["passes"], sorted(r["observed"]), r["iterations"], n),
+                        {"kind": "auth-outcomes", "case": case, "row": r})
+            st3["nondeterministic"] += 1
+        else:
+            st3["deterministic"] += 1
+    ctx.cov["evaluations"] += len(rows3) * n * 2
+    ctx.cov["distinct_nontrivial"] += len(rows3)
+    ctx.cov["replayed"]["passes"] = dict(st3)
     # error-free universes must be deterministic too: re-use the alts universe with several builds
     c2 = ac.consts(Universe='"alts"', MaxBlocks=2, ScopeMenu="<- Scopes3", SampleN=8 if not big else 1)
     r = ac.run_universe(ctx, "alts", c2)
@@ -72,7 +102,8 @@ def run(tier, seed):
              "whose guard errors / is false / is true on different bindings (10/$x, $x < 3, $x != 0), optionally a second alternative, a policy with a guard, "
              "a rule with an erroring guard. The spec computes the SET of outcomes over all visiting orders (AuthOutcomes); TLC checks Deterministic. "
              "Replay: %d fresh builds + clones + permuted insertion orders per program; the observed outcome set must be inside the spec's set and a singleton; "
-             "error-free results are compared with the spec's result." % n,
+             "error-free results are compared with the spec's result. Universe `passes`: a derivation chain of 2..3 rules placed in every combination of blocks / authorizer (different "
+             "trust groups of the rule store) under max_iterations = Passes-1, Passes, Passes+5: outcome, iteration count and their invariance over the builds." % n,
         exhaustive=True)
 
 
